@@ -188,17 +188,22 @@ func invalidate(r *verifrt.Rand, rep *jreport) (body []byte, why string) {
 		why = "version"
 	case 8:
 		p := ensureProg()
+		if r.Bool() {
+			// the program with bucketed counters: near-misses of its chart names
+			p.Program, p.Version = "golang.org/x/tools/gopls", "v0.14.0"
+			p.Counters, p.Stacks = nil, nil
+		}
 		if p.Counters == nil {
 			p.Counters = map[string]int64{}
 		}
-		p.Counters[verifrt.Pick(r, []string{"flag:", "flag:{v,x,json}", "flag:V", "editor/opens2", "secret", "crash/crash", "flag:v,x"})] = 1
+		p.Counters[verifrt.Pick(r, []string{"flag:", "flag", "flag", "editor", "go/cmd", "flag:{v,x,json}", "flag:V", "editor/opens2", "secret", "crash/crash", "flag:v,x", "flag:{v}", "flag:v:x"})] = 1
 		why = "counter"
 	case 9:
 		p := ensureProg()
 		if p.Stacks == nil {
 			p.Stacks = map[string]int64{}
 		}
-		p.Stacks[verifrt.Pick(r, []string{"crash/crash2\nf:+1", "editor/opens\nf:+1", "crash\ncrash/crash", "\ncrash/crash", "other"})] = 1
+		p.Stacks[verifrt.Pick(r, []string{"crash/crash2\nf:+1", "editor/opens\nf:+1", "crash\ncrash/crash", "\ncrash/crash", "other", "crash", "crash/\nf:+1", "flag\nf:+1"})] = 1
 		why = "stack"
 	case 10: // empty unapproved program entry
 		cp.Programs = append(cp.Programs, &jprog{Program: "evil.example/p", Version: "v9", GoVersion: "go9", GOOS: "x", GOARCH: "y"})
